@@ -1,5 +1,6 @@
 import AcraModel.Sql.Literal
 import AcraModel.Sql.Ident
+import Driver.C13Expr
 /-! Driver ops for C13 (re-serialisation): literal codec. -/
 namespace Driver.C13
 open AcraModel AcraModel.Sql
@@ -28,6 +29,6 @@ def handle (op : String) (args : List String) : Option String :=
       match Ident.scanQuotedIdent q b with
       | some (v, rest) => pure s!"ok {hexOf v} {hexOf rest}"
       | none => pure "err"
-  | _, _ => none
+  | _, _ => Driver.C13Expr.handle op args
 
 end Driver.C13
